@@ -297,62 +297,79 @@ func mayBeNonNil(w *core.World, v ssa.Value, depth int) bool {
 // path before the return, elements whose Errors field comes from a range over
 // the validation result vc.
 func responseCarriesErrors(f *ssa.Function, resp ssa.Value, vc ssa.CallInstruction) bool {
-	// find MapUpdate instructions whose value is a struct with field Errors fed by ErrorsString on a value ranging over vc
-	for _, b := range core.Blocks(f) {
-		for _, in := range b.Instrs {
-			mu, ok := in.(*ssa.MapUpdate)
-			if !ok {
-				continue
+	// find MapUpdate instructions whose value is a struct with field Errors fed by ErrorsString on a value ranging over
+	// vc; the response and the per-intent literal may be built by (virtually inlined) constructors
+	ok := false
+	core.WithHost(f, func() {
+		sameResp := func(x ssa.Value) bool {
+			if x == resp || core.SameObject(x, resp) {
+				return true
 			}
-			// map must be loaded from resp.Intents
-			fromResp := false
-			for _, o := range core.Origins(mu.Map) {
-				if u, ok := o.(*ssa.UnOp); ok {
-					if fa, ok := u.X.(*ssa.FieldAddr); ok && (fa.X == resp || core.SameObject(fa.X, resp)) {
-						fromResp = true
-					}
+			for _, o := range core.Origins(x) {
+				if _, isC := o.(*ssa.Const); isC {
+					continue
 				}
-				if mm, ok := o.(*ssa.MakeMap); ok {
-					// stored into resp.Intents?
-					for _, ref := range *mm.Referrers() {
-						if st, ok := ref.(*ssa.Store); ok {
-							if fa, ok := st.Addr.(*ssa.FieldAddr); ok && (fa.X == resp || core.SameObject(fa.X, resp)) {
-								fromResp = true
+				if core.HasOrigin(resp, o) {
+					return true
+				}
+			}
+			return false
+		}
+		for _, b := range core.Blocks(f) {
+			for _, in := range b.Instrs {
+				mu, isMU := in.(*ssa.MapUpdate)
+				if !isMU {
+					continue
+				}
+				// map must be loaded from resp.Intents
+				fromResp := false
+				for _, o := range core.Origins(mu.Map) {
+					if u, isU := o.(*ssa.UnOp); isU {
+						if fa, isFA := u.X.(*ssa.FieldAddr); isFA && sameResp(fa.X) {
+							fromResp = true
+						}
+					}
+					if mm, isMM := o.(*ssa.MakeMap); isMM {
+						// stored into resp.Intents?
+						for _, ref := range *mm.Referrers() {
+							if st, isSt := ref.(*ssa.Store); isSt {
+								if fa, isFA := st.Addr.(*ssa.FieldAddr); isFA && sameResp(fa.X) {
+									fromResp = true
+								}
 							}
 						}
 					}
 				}
-			}
-			if !fromResp {
-				continue
-			}
-			// value: alloc of TransactionSetResponseIntent with Errors store from ErrorsString call
-			al, ok := mu.Value.(*ssa.Alloc)
-			if !ok {
-				continue
-			}
-			for _, ref := range *al.Referrers() {
-				fa, ok := ref.(*ssa.FieldAddr)
-				if !ok {
+				if !fromResp {
 					continue
 				}
-				st := fa.X.Type().Underlying().(*types.Pointer).Elem().Underlying().(*types.Struct)
-				if st.Field(fa.Field).Name() != "Errors" {
-					continue
-				}
-				for _, r2 := range *fa.Referrers() {
-					if s, ok := r2.(*ssa.Store); ok {
-						for _, oc := range core.OriginCalls(s.Val) {
-							if core.CalleeIs(oc, "types.ValidationResultIntent.ErrorsString") && rangesOver(core.CallRecv(oc), vc.Value()) {
-								return true
+				// value: literal of TransactionSetResponseIntent whose Errors field comes from an ErrorsString call
+				for _, vo := range append(core.Origins(mu.Value), mu.Value) {
+					al, isAl := vo.(*ssa.Alloc)
+					if !isAl {
+						continue
+					}
+					st, isStruct := al.Type().Underlying().(*types.Pointer).Elem().Underlying().(*types.Struct)
+					if !isStruct {
+						continue
+					}
+					for i := 0; i < st.NumFields(); i++ {
+						if st.Field(i).Name() != "Errors" {
+							continue
+						}
+						for _, sv := range core.LocalFieldStores(al, i) {
+							for _, oc := range core.OriginCalls(sv) {
+								if core.CalleeIs(oc, "types.ValidationResultIntent.ErrorsString") && rangesOver(core.CallRecv(oc), vc.Value()) {
+									ok = true
+								}
 							}
 						}
 					}
 				}
 			}
 		}
-	}
-	return false
+	})
+	return ok
 }
 
 // rangesOver: v is extracted from a Next over a Range of coll.
